@@ -367,4 +367,40 @@ def detectSiteConfig (cfg : Option Nat) (e : Env) : Nat :=
   | none => if detectTmux e then 1 else 0
   | some k => k
 
+/-! ### derivation entry points (`clone_with`, `get_pure_transmit_command`, `get_put_command`)
+
+  `GraphicsCommand.clone_with(**kwargs)` is `dataclasses.replace(self, **kwargs)`: a record update in
+  which every named field takes the given value, **`None` included** (the field becomes unset).  The
+  record update itself is Lean's `{ c with … }`; the driver applies it field by field. -/
+
+/-- `get_pure_transmit_command` = `clone_with(placement=None)` -/
+def Transmit.pureTransmit (t : Transmit) : Transmit := { t with placement := none }
+
+/-- `get_put_command`: `None` without placement, else
+    `PutCommand(image_id, image_number, quiet, **asdict(placement))` -/
+def Transmit.putCommand (t : Transmit) : Option Put :=
+  t.placement.map fun p => { placement := p, imageId := t.imageId, imageNumber := t.imageNumber, quiet := t.quiet }
+
+/-! ### the part of a `GraphicsTerminal`'s configuration the command stream depends on -/
+
+/-- `max_command_size` (`None` = `select.PIPE_BUF` at send time) and `num_tmux_layers` -/
+structure TermCfg where
+  maxSize : Option Nat := none
+  layers : Nat := 0
+deriving DecidableEq, Repr, Inhabited
+
+/-- `GraphicsTerminal.clone_with(num_tmux_layers=arg)`: `copy.copy(self)`, then the layer count is
+    assigned when the argument `is not None` (0 included); `max_command_size` is copied. -/
+def TermCfg.cloneWith (c : TermCfg) (layers : Option Nat) : TermCfg :=
+  match layers with
+  | none => c
+  | some k => { c with layers := k }
+
+/-- `GraphicsTerminal.detect_tmux()` on this object -/
+def TermCfg.detect (c : TermCfg) (e : Env) : TermCfg := { c with layers := detectSiteTerminal c.layers e }
+
+/-- `send_command`: `command.send(out, template(num_tmux_layers), max_size=max_command_size)` -/
+def TermCfg.sendCommand (c : TermCfg) (pipeBuf : Nat) (cmd : GCmd) : Except SendErr (List Bytes) :=
+  send (template c.layers) (c.maxSize.getD pipeBuf) cmd
+
 end Tup.Command
